@@ -40,6 +40,7 @@ type PropConfig struct {
 	Bounded     []Bounded  `json:"bounded"`
 	Mutants     []string   `json:"mutants"`
 	MinObligations int     `json:"min_obligations"`
+	UnknownOK   []string   `json:"unknown_ok"` // module functions this cone knowingly calls without a contract
 	Static      []string   `json:"static"` // static companions: "global-writes"
 }
 
@@ -236,6 +237,24 @@ func safeFinalize(run *FuncRun, ex string) {
 func (eng *Engine) runProperty(cfg *PropConfig, tier string, timeout int, work string) *propResult {
 	pr := &propResult{workDir: work}
 	pr.runs, pr.missing = eng.runsForProperty(cfg)
+	// a function that calls a helper of this module which has no contract and cannot be executed
+	// in place (it has loops) treats the helper as arbitrary code: its obligations are undecided,
+	// not violations (an extracted helper must not alarm) - reported as DEGRADED
+	okUnknown := map[string]bool{}
+	for _, k := range cfg.UnknownOK {
+		okUnknown[k] = true
+	}
+	for _, run := range pr.runs {
+		if run.aborted != "" {
+			continue
+		}
+		for _, k := range sortedKeys(run.unknownCalls) {
+			if !okUnknown[k] && isModuleFuncKey(k) {
+				run.aborted = "calls " + k + ", a helper without a contract that cannot be executed in place (it has loops); its effect is unknown"
+				break
+			}
+		}
+	}
 	var items []struct {
 		Run *FuncRun
 		Obl *Obligation
@@ -376,6 +395,7 @@ func (pr *propResult) finish(eng *Engine, cfg *PropConfig, tier string, seed int
 		if len(a.fails) == 0 {
 			continue
 		}
+
 		// known finding?
 		isKnown := false
 		for _, k := range known {
@@ -604,6 +624,17 @@ func (pr *propResult) finish(eng *Engine, cfg *PropConfig, tier string, seed int
 	if violations > 0 {
 		os.Exit(1)
 	}
+}
+
+// isModuleFuncKey: does an unknown-call description name a function of the module under verification?
+func isModuleFuncKey(k string) bool {
+	k = strings.TrimPrefix(strings.TrimPrefix(k, "("), "*")
+	for _, p := range []string{"ordered.", "pipeline.", "signature.", "jwkutil.", "warning.", "env."} {
+		if strings.HasPrefix(k, p) {
+			return true
+		}
+	}
+	return false
 }
 
 func stripPathLabel(n string) string {
